@@ -17,6 +17,8 @@ import (
 	"strings"
 	"time"
 
+	"github.com/Oneledger/protocol/action"
+	evact "github.com/Oneledger/protocol/action/evidence"
 	"github.com/Oneledger/protocol/consensus"
 	"github.com/Oneledger/protocol/data/balance"
 	"github.com/Oneledger/protocol/data/evidence"
@@ -35,7 +37,7 @@ type c19Cfg struct {
 }
 
 type c19Act struct {
-	Kind   string // allege vote release stake unstake withdraw
+	Kind   string // allege vote release stake unstake withdraw forgevote forgerelease (signed by Who, naming Mal)
 	Who    int    // cast index of the sender (validators first, then the candidate, then outsiders)
 	Mal    int    // allege: cast index of the accused
 	Req    int    // allege/vote: request number
@@ -381,6 +383,19 @@ func c19RunScript(sc *c19Script) (cs *c19Case) {
 				tx = txRelease(who, r.nextMemo())
 				op = c19Op{Kind: "release", A: r.id(who.Val.Addr)}
 				d = fmt.Sprintf("release %d", a.Who)
+			case "forgevote", "forgerelease":
+				// names another validator but is signed by the sender only: Validate must refuse it
+				if a.Mal < 0 || a.Mal >= len(r.cast) || a.Mal == a.Who {
+					continue
+				}
+				named := r.cast[a.Mal].Val.Addr
+				if a.Kind == "forgevote" {
+					tx = mkTx(action.ALLEGATION_VOTE, evact.AllegationVote{RequestID: c19ReqName(a.Req), Address: named, Choice: a.Choice}, GAS, r.nextMemo(), who.Val)
+				} else {
+					tx = mkTx(action.RELEASE, evact.Release{ValidatorAddress: named}, GAS, r.nextMemo(), who.Val)
+				}
+				op = c19Op{Kind: "invalid"}
+				d = fmt.Sprintf("%s naming %d signed by %d", a.Kind, a.Mal, a.Who)
 			case "stake", "unstake", "withdraw":
 				am := oltAmt(fmt.Sprint(a.Amount))
 				kind := int64(0)
@@ -505,6 +520,8 @@ func (op c19Op) coq() string {
 		return fmt.Sprintf("(ORelease %s)", c19Z(op.A))
 	case "stake":
 		return fmt.Sprintf("(OStake %s %s %s %s)", c19Z(op.B), c19Z(op.A), c19B(op.EnvOk), c19Z(op.Delta))
+	case "invalid":
+		return "OInvalid"
 	default:
 		return fmt.Sprintf("(OEnd %s [])", c19Pairs(op.Queue))
 	}
@@ -621,10 +638,20 @@ func c19GenScript(r *rand.Rand, name string, nblocks int) *c19Script {
 				if r.Intn(4) != 0 {
 					a.Who = r.Intn(nv)
 				}
-			case x < 15:
+			case x < 14:
 				a.Kind = "release"
 				if target >= 0 && r.Intn(2) == 0 {
 					a.Who = target
+				}
+			case x < 15:
+				a.Kind = []string{"forgevote", "forgerelease"}[r.Intn(2)]
+				a.Mal = r.Intn(nv)
+				if target >= 0 && r.Intn(2) == 0 {
+					a.Mal = target
+				}
+				a.Choice = 1
+				if nreq > 0 {
+					a.Req = nreq - 1
 				}
 			default:
 				a.Kind = []string{"stake", "unstake", "withdraw"}[r.Intn(3)]
@@ -695,10 +722,10 @@ func c19Directed() []*c19Script {
 		sc := &c19Script{Name: "guilty-frozen-release", NVals: 4, Cfg: c}
 		sc.Blocks = idle(5)
 		sc.Blocks = append(sc.Blocks,
-			c19Block{DT: 15, Acts: append([]c19Act{{Kind: "allege", Who: 0, Mal: 3, Req: 0}}, votes(0, []int{0, 1}, nil)...)},
+			c19Block{DT: 15, Acts: append([]c19Act{{Kind: "allege", Who: 0, Mal: 3, Req: 0}, {Kind: "forgevote", Who: 5, Mal: 2, Req: 0, Choice: 1}, {Kind: "forgevote", Who: 0, Mal: 2, Req: 0, Choice: 1}}, votes(0, []int{0, 1}, nil)...)},
 			c19Block{DT: 15, Acts: []c19Act{{Kind: "stake", Who: 3, Amount: 500}, {Kind: "unstake", Who: 3, Amount: 500}, {Kind: "withdraw", Who: 3, Amount: 1}, {Kind: "release", Who: 3}, {Kind: "vote", Who: 3, Req: 0, Choice: 1}, {Kind: "allege", Who: 3, Mal: 0, Req: 1}, {Kind: "allege", Who: 0, Mal: 3, Req: 2}}},
 			c19Block{DT: 86400 - 15, Acts: []c19Act{{Kind: "release", Who: 3}}},
-			c19Block{DT: 1, Acts: []c19Act{{Kind: "release", Who: 3}, {Kind: "release", Who: 3}, {Kind: "stake", Who: 3, Amount: 500}}},
+			c19Block{DT: 1, Acts: []c19Act{{Kind: "forgerelease", Who: 4, Mal: 3}, {Kind: "forgerelease", Who: 0, Mal: 3}, {Kind: "unstake", Who: 3, Amount: 1}, {Kind: "release", Who: 3}, {Kind: "release", Who: 3}, {Kind: "stake", Who: 3, Amount: 500}}},
 			c19Block{DT: 15, Acts: []c19Act{{Kind: "unstake", Who: 3, Amount: 100}, {Kind: "release", Who: 3}}})
 		sc.Blocks = append(sc.Blocks, idle(3)...)
 		out = append(out, sc)
